@@ -1,10 +1,12 @@
 import WfModel.Lemmas.Atoms
+import WfModel.Lemmas.Atoms.Each
 
 /-!
 # A concrete scheme, concrete atoms, concrete renderings
 
 Scheme `i : Int`, `b : Bool`, `tcp.port : Int`, `ip.src : Ip`, `http.host : Bytes`,
-`tcp.ports : Array Int`, `http.headers : Map Bytes`, `m : Map (Array Bytes)`, `flags : Map Bool`. Two
+`tcp.ports : Array Int`, `http.headers : Map Bytes`, `m : Map (Array Bytes)`, `flags : Map Bool`;
+lists registered for `Int` (0) and `Ip` (1), none for `Bytes`. Two
 spellings of one filter — `tcp.port ge 80 and not (i ==  -5 or b)` and
 `tcp.port>=80&&!(i eq -5||b)` — and a third one with a hexadecimal literal; a filter with a byte
 string and an address; atoms with index suffixes, `in { … }` and `contains`. Used by the non-vacuity examples of `Props/C01Atoms.lean`.
@@ -20,7 +22,7 @@ def cScheme : Scheme :=
       ⟨"http.host".toList, .bytes, false⟩,
       ⟨"tcp.ports".toList, .array .int, false⟩, ⟨"http.headers".toList, .map .bytes, false⟩,
       ⟨"m".toList, .map (.array .bytes), false⟩, ⟨"flags".toList, .map .bool, false⟩],
-    funcs := [], lists := [] }
+    funcs := [], lists := [(.int, .always), (.ip, .never)] }
 
 def cEnv : PEnv := { scheme := cScheme, st := {} }
 
@@ -361,5 +363,215 @@ theorem cRenders₁₀ : Renders cEnv (atoms cScheme) true cSk₁₀ cText₁₀
       (.cons (o := .and) [] "&&" [] rfl (by decide) rfl rfl
         (.not "!" [] (by decide) rfl (by decide) (.atom aFlag)) (.nil _)))
     (by rw [txt_aPorts0Alt, txt_aFlag]; rfl)
+
+/-! ### `in {…}` on `Bytes` / `Ip`, `&` / `bitwise_and`, `in $list` -/
+
+theorem digits10_16 : digits 10 16 = ['1', '6'] := by
+  rw [digits_big (by omega) (by omega), digits_small (by omega)]; decide
+theorem digits16_16 : digits 16 16 = ['1', '0'] := by
+  rw [digits_big (by omega) (by omega), digits_small (by omega)]; decide
+theorem digits10_255 : digits 10 255 = ['2', '5', '5'] := by
+  rw [digits_big (by omega) (by omega), digits_big (by omega) (by omega),
+    digits_small (by omega)]; decide
+theorem digits10_192 : digits 10 192 = ['1', '9', '2'] := by
+  rw [digits_big (by omega) (by omega), digits_big (by omega) (by omega),
+    digits_small (by omega)]; decide
+theorem digits10_168 : digits 10 168 = ['1', '6', '8'] := by
+  rw [digits_big (by omega) (by omega), digits_big (by omega) (by omega),
+    digits_small (by omega)]; decide
+
+theorem dotted_10_0_0_1 : dotted 167772161 = "10.0.0.1".toList := by
+  simp only [dotted, Nat.reduceDiv, Nat.reduceMod, digits10_10, digits10_0, digits10_1]; rfl
+theorem dotted_10_0_0_0 : dotted 167772160 = "10.0.0.0".toList := by
+  simp only [dotted, Nat.reduceDiv, Nat.reduceMod, digits10_10, digits10_0]; rfl
+theorem dotted_10_0_0_255 : dotted 167772415 = "10.0.0.255".toList := by
+  simp only [dotted, Nat.reduceDiv, Nat.reduceMod, digits10_10, digits10_0, digits10_255]; rfl
+theorem dotted_192_168_0_0 : dotted 3232235520 = "192.168.0.0".toList := by
+  simp only [dotted, Nat.reduceDiv, Nat.reduceMod, digits10_192, digits10_168, digits10_0]; rfl
+
+theorem r16 : renderInt .dec 16 = ['1', '6'] := (renderInt_dec_nat 16).trans digits10_16
+theorem rx16 : renderInt .hex 16 = ['0', 'x', '1', '0'] := by
+  rw [show (16 : Int) = ((16 : Nat) : Int) from rfl, renderInt_hex_nat, digits16_16]
+
+/-- `http.host in {"a" r#"b"#}` -/
+def aHostIn : CAtom :=
+  .inBytesSet "http.host".toList [' '] [' '] []
+    [(.quoted [(.lit, 97)], [' ']), (.raw 1 "b".toList, [])]
+/-- `http.host in{ "\x61"
+r"b" }`: the same strings, escaped / without hashes -/
+def aHostInAlt : CAtom :=
+  .inBytesSet "http.host".toList [' '] [] [' ']
+    [(.quoted [(.hex false false, 97)], ['\n']), (.raw 0 "b".toList, [' '])]
+/-- `ip.src in {10.0.0.1 10.0.0.0..10.0.0.255 192.168.0.0/16}` -/
+def aSrcIn : CAtom :=
+  .inIpSet "ip.src".toList [' '] [' '] []
+    [.single 167772161 [' '], .range 167772160 167772415 [' '], .cidr 3232235520 16 []]
+/-- `ip.src in{ 10.0.0.1
+10.0.0.0..10.0.0.255 192.168.0.0/16 }` -/
+def aSrcInAlt : CAtom :=
+  .inIpSet "ip.src".toList [' '] [] [' ']
+    [.single 167772161 ['\n'], .range 167772160 167772415 [' '], .cidr 3232235520 16 [' ']]
+/-- `i & 0x10` -/
+def aMask : CAtom := .bitAndCmp "i".toList [' '] true [' '] 16 .hex
+/-- `i&16`: the symbol glued on both sides -/
+def aMaskSym : CAtom := .bitAndCmp "i".toList [] true [] 16
+/-- `i bitwise_and 16` -/
+def aMaskWord : CAtom := .bitAndCmp "i".toList [' '] false [' '] 16
+/-- `tcp.port in $bad.ports` -/
+def aList : CAtom := .inListCmp "tcp.port".toList [' '] [' '] .int 0 "bad.ports".toList
+/-- `tcp.port in$bad.ports` -/
+def aListAlt : CAtom := .inListCmp "tcp.port".toList [' '] [] .int 0 "bad.ports".toList
+/-- `ip.src in $nets_1` -/
+def aListIp : CAtom := .inListCmp "ip.src".toList [' '] [' '] .ip 1 "nets_1".toList
+
+theorem txt_aHostIn : (atoms cScheme).txt aHostIn = "http.host in {\"a\" r#\"b\"#}".toList := by
+  decide
+theorem txt_aHostInAlt :
+    (atoms cScheme).txt aHostInAlt = "http.host in{ \"\\x61\"\nr\"b\" }".toList := by decide
+
+theorem txt_aSrcIn :
+    (atoms cScheme).txt aSrcIn =
+      "ip.src in {10.0.0.1 10.0.0.0..10.0.0.255 192.168.0.0/16}".toList := by
+  have e : (atoms cScheme).txt aSrcIn = "ip.src".toList ++ ([] ++ ([' '] ++ ("in".toList ++
+    ([' '] ++ ('{' :: ([] ++ ((dotted 167772161 ++ ([' '] ++
+      ((dotted 167772160 ++ ('.' :: '.' :: dotted 167772415)) ++ ([' '] ++
+        ((dotted 3232235520 ++ ('/' :: digits 10 16)) ++ ([] ++ [])))))) ++ ['}']))))))) := rfl
+  rw [e, dotted_10_0_0_1, dotted_10_0_0_0, dotted_10_0_0_255, dotted_192_168_0_0, digits10_16]
+  decide
+
+theorem txt_aSrcInAlt :
+    (atoms cScheme).txt aSrcInAlt =
+      "ip.src in{ 10.0.0.1\n10.0.0.0..10.0.0.255 192.168.0.0/16 }".toList := by
+  have e : (atoms cScheme).txt aSrcInAlt = "ip.src".toList ++ ([] ++ ([' '] ++ ("in".toList ++
+    ([] ++ ('{' :: ([' '] ++ ((dotted 167772161 ++ (['\n'] ++
+      ((dotted 167772160 ++ ('.' :: '.' :: dotted 167772415)) ++ ([' '] ++
+        ((dotted 3232235520 ++ ('/' :: digits 10 16)) ++ ([' '] ++ [])))))) ++ ['}']))))))) := rfl
+  rw [e, dotted_10_0_0_1, dotted_10_0_0_0, dotted_10_0_0_255, dotted_192_168_0_0, digits10_16]
+  decide
+
+theorem txt_aMask : (atoms cScheme).txt aMask = "i & 0x10".toList := by
+  have e : (atoms cScheme).txt aMask =
+    "i".toList ++ ([] ++ ([' '] ++ ("&".toList ++ ([' '] ++ renderInt .hex 16)))) := rfl
+  rw [e, rx16]; decide
+theorem txt_aMaskSym : (atoms cScheme).txt aMaskSym = "i&16".toList := by
+  have e : (atoms cScheme).txt aMaskSym =
+    "i".toList ++ ([] ++ ([] ++ ("&".toList ++ ([] ++ renderInt .dec 16)))) := rfl
+  rw [e, r16]; decide
+theorem txt_aMaskWord : (atoms cScheme).txt aMaskWord = "i bitwise_and 16".toList := by
+  have e : (atoms cScheme).txt aMaskWord =
+    "i".toList ++ ([] ++ ([' '] ++ ("bitwise_and".toList ++ ([' '] ++ renderInt .dec 16)))) := rfl
+  rw [e, r16]; decide
+theorem txt_aList : (atoms cScheme).txt aList = "tcp.port in $bad.ports".toList := by decide
+theorem txt_aListAlt : (atoms cScheme).txt aListAlt = "tcp.port in$bad.ports".toList := by decide
+theorem txt_aListIp : (atoms cScheme).txt aListIp = "ip.src in $nets_1".toList := by decide
+
+/-- `i & 0x10 and ip.src in {…} or tcp.port in $bad.ports` -/
+def cSk₁₁ : Sk CAtom := .chain (.atom aMask) [(.and, .atom aSrcIn), (.or, .atom aList)]
+/-- `i&16&&ip.src in{ … }||tcp.port in$bad.ports` -/
+def cSk₁₂ : Sk CAtom := .chain (.atom aMaskSym) [(.and, .atom aSrcInAlt), (.or, .atom aListAlt)]
+
+def cText₁₁ : Input :=
+  "i & 0x10 and ip.src in {10.0.0.1 10.0.0.0..10.0.0.255 192.168.0.0/16} or tcp.port in $bad.ports".toList
+def cText₁₂ : Input :=
+  "i&16&&ip.src in{ 10.0.0.1\n10.0.0.0..10.0.0.255 192.168.0.0/16 }||tcp.port in$bad.ports".toList
+
+/-- `or[ and[ i & 16, ip.src in {10.0.0.1/32, 10.0.0.0..10.0.0.255, 192.168.0.0/16} ],
+tcp.port in $bad.ports (list 0) ]` -/
+def cAst₁₁ : LExpr :=
+  .combining .or
+    [.combining .and
+      [.comparison (.field 0 []) (.bitAnd 16),
+       .comparison (.field 3 [])
+         (.oneOf (.ip [.cidr false 167772161 32, .explicit false 167772160 167772415,
+           .cidr false 3232235520 16]))],
+     .comparison (.field 2 []) (.inList 0 "bad.ports".toList)]
+
+theorem cRenders₁₁ : Renders cEnv (atoms cScheme) true cSk₁₁ cText₁₁ :=
+  Renders.cast
+    (.chain (.atom aMask)
+      (.cons (o := .and) [' '] "and" [' '] rfl (by decide) rfl rfl (.atom aSrcIn)
+        (.cons (o := .or) [' '] "or" [' '] rfl (by decide) rfl rfl (.atom aList) (.nil _))))
+    (by rw [txt_aMask, txt_aSrcIn, txt_aList]; rfl)
+
+theorem cRenders₁₂ : Renders cEnv (atoms cScheme) true cSk₁₂ cText₁₂ :=
+  Renders.cast
+    (.chain (.atom aMaskSym)
+      (.cons (o := .and) [] "&&" [] rfl (by decide) rfl rfl (.atom aSrcInAlt)
+        (.cons (o := .or) [] "||" [] rfl (by decide) rfl rfl (.atom aListAlt) (.nil _))))
+    (by rw [txt_aMaskSym, txt_aSrcInAlt, txt_aListAlt]; rfl)
+
+/-- `http.host in {"a" r#"b"#} and i bitwise_and 16` -/
+def cSk₁₃ : Sk CAtom := .chain (.atom aHostIn) [(.and, .atom aMaskWord)]
+/-- `http.host in{ "\x61"⏎r"b" }&&i&16` -/
+def cSk₁₄ : Sk CAtom := .chain (.atom aHostInAlt) [(.and, .atom aMaskSym)]
+
+def cText₁₃ : Input := "http.host in {\"a\" r#\"b\"#} and i bitwise_and 16".toList
+def cText₁₄ : Input := "http.host in{ \"\\x61\"\nr\"b\" }&&i&16".toList
+
+theorem cRenders₁₃ : Renders cEnv (atoms cScheme) true cSk₁₃ cText₁₃ :=
+  Renders.cast
+    (.chain (.atom aHostIn)
+      (.cons (o := .and) [' '] "and" [' '] rfl (by decide) rfl rfl (.atom aMaskWord) (.nil _)))
+    (by rw [txt_aHostIn, txt_aMaskWord]; rfl)
+
+theorem cRenders₁₄ : Renders cEnv (atoms cScheme) true cSk₁₄ cText₁₄ :=
+  Renders.cast
+    (.chain (.atom aHostInAlt)
+      (.cons (o := .and) [] "&&" [] rfl (by decide) rfl rfl (.atom aMaskSym) (.nil _)))
+    (by rw [txt_aHostInAlt, txt_aMaskSym]; rfl)
+
+/-! ### `[*]` and quantifier calls -/
+
+/-- `http.headers[ * ] contains "x"` -/
+def eHdr : EAtom :=
+  ⟨"http.headers".toList, [.each [' '] [' ']], .contains [' '] [' '] (.quoted [(.lit, 120)])⟩
+/-- `m["a"][*] in {"v" r"w"}` -/
+def eM : EAtom :=
+  ⟨"m".toList, [.ix (.plainKey [] "a".toList []), .each [] []],
+    .inBytes [' '] [' '] [] [(.quoted [(.lit, 118)], [' ']), (.raw 0 "w".toList, [])]⟩
+/-- `tcp.ports[*] == 80` -/
+def ePorts : EAtom :=
+  ⟨"tcp.ports".toList, [.each [] []], .ord [' '] .eq true [' '] (.int .dec 80)⟩
+/-- `m[*][*]=="v"`: two `[*]` -/
+def eMM : EAtom :=
+  ⟨"m".toList, [.each [] [], .each [] []], .ord [] .eq true [] (.quoted [(.lit, 118)])⟩
+
+theorem txt_eHdr : eHdr.txt = "http.headers[ * ] contains \"x\"".toList := by decide
+theorem txt_eM : eM.txt = "m[\"a\"][*] in {\"v\" r\"w\"}".toList := by decide
+theorem txt_ePorts : ePorts.txt = "tcp.ports[*] == 80".toList := by
+  have e : ePorts.txt = "tcp.ports".toList ++ (['[', '*', ']'] ++
+    ([' '] ++ ("==".toList ++ ([' '] ++ renderInt .dec 80)))) := rfl
+  rw [e, r80]; decide
+theorem txt_eMM : eMM.txt = "m[*][*]==\"v\"".toList := by decide
+
+/-! ### IPv6 items in address sets -/
+
+theorem digits16_1 : digits 16 1 = ['1'] := by rw [digits_small (by omega)]; decide
+theorem digits10_127 : digits 10 127 = ['1', '2', '7'] := by
+  rw [digits_big (by omega) (by omega), digits_big (by omega) (by omega),
+    digits_small (by omega)]; decide
+
+theorem v6full_0 : v6full 0 = "0:0:0:0:0:0:0:0".toList := by
+  simp only [v6full, v6parts, v6groups, Nat.reducePow, Nat.reduceDiv, Nat.reduceMod, digits16_0]
+  rfl
+theorem v6full_1 : v6full 1 = "0:0:0:0:0:0:0:1".toList := by
+  simp only [v6full, v6parts, v6groups, Nat.reducePow, Nat.reduceDiv, Nat.reduceMod, digits16_0,
+    digits16_1]
+  rfl
+
+/-- `ip.src in {0:0:0:0:0:0:0:1 0:0:0:0:0:0:0:0..0:0:0:0:0:0:0:1 0:0:0:0:0:0:0:0/127 10.0.0.1}` -/
+def aSrc6In : CAtom :=
+  .inIpSet "ip.src".toList [' '] [' '] []
+    [.single6 1 [' '], .range6 0 1 [' '], .cidr6 0 127 [' '], .single 167772161 []]
+
+theorem txt_aSrc6In : (atoms cScheme).txt aSrc6In =
+    "ip.src in {0:0:0:0:0:0:0:1 0:0:0:0:0:0:0:0..0:0:0:0:0:0:0:1 0:0:0:0:0:0:0:0/127 10.0.0.1}".toList := by
+  have e : (atoms cScheme).txt aSrc6In = "ip.src".toList ++ ([] ++ ([' '] ++ ("in".toList ++
+    ([' '] ++ ('{' :: ([] ++ ((v6full 1 ++ ([' '] ++
+      ((v6full 0 ++ ('.' :: '.' :: v6full 1)) ++ ([' '] ++
+        ((v6full 0 ++ ('/' :: digits 10 127)) ++ ([' '] ++
+          (dotted 167772161 ++ ([] ++ [])))))))) ++ ['}']))))))) := rfl
+  rw [e, v6full_0, v6full_1, digits10_127, dotted_10_0_0_1]
+  decide
 
 end WfModel.Atoms
